@@ -476,6 +476,69 @@ func funcStmts(f *ast.File, recvType, name string) []string {
 	return nil
 }
 
+// fields of a struct type declaration
+func structFields(f *ast.File, name string) []string {
+	var out []string
+	ast.Inspect(f, func(n ast.Node) bool {
+		ts, ok := n.(*ast.TypeSpec)
+		if !ok || ts.Name.Name != name {
+			return true
+		}
+		st, ok := ts.Type.(*ast.StructType)
+		if !ok {
+			return true
+		}
+		for _, fl := range st.Fields.List {
+			for _, nm := range fl.Names {
+				out = append(out, nm.Name)
+			}
+		}
+		return false
+	})
+	return out
+}
+
+// fields X of variable v that are the target of an assignment `v.X = ...` anywhere in the function (unconditionally
+// or under a guard that only skips copying a nil/empty source: both are recorded, the guard text separately)
+func assignedFields(f *ast.File, recvType, fn, v string) (uncond []string, guarded []string) {
+	for _, d := range f.Decls {
+		fd, ok := d.(*ast.FuncDecl)
+		if !ok || fd.Name.Name != fn || fd.Body == nil {
+			continue
+		}
+		_, rt := recvName(fd)
+		if rt != recvType {
+			continue
+		}
+		collect := func(stmts []ast.Stmt, dst *[]string) {
+			for _, s := range stmts {
+				as, ok := s.(*ast.AssignStmt)
+				if !ok {
+					continue
+				}
+				for _, l := range as.Lhs {
+					if sel, ok := l.(*ast.SelectorExpr); ok {
+						if id, ok := sel.X.(*ast.Ident); ok && id.Name == v {
+							*dst = append(*dst, sel.Sel.Name)
+						}
+					}
+				}
+			}
+		}
+		collect(fd.Body.List, &uncond)
+		for _, s := range fd.Body.List {
+			if is, ok := s.(*ast.IfStmt); ok && is.Else == nil {
+				var g []string
+				collect(is.Body.List, &g)
+				for _, x := range g {
+					guarded = append(guarded, x+" if "+src(is.Cond))
+				}
+			}
+		}
+	}
+	return
+}
+
 func main() {
 	repo := flag.String("repo", "/repo", "repository")
 	out := flag.String("out", "", "output directory")
@@ -566,6 +629,22 @@ func main() {
 		emit("fatal_stmts", funcStmts(logf, "*Logger", "Fatal"))
 		emit("panic_stmts", funcStmts(logf, "*Logger", "Panic"))
 		os.WriteFile(filepath.Join(*out, "LevelGate.v"), []byte(b.String()), 0o644)
+	}
+	// Structs.v: which fields of Event / Logger exist and which are (re)assigned by newEvent / Output
+	{
+		var b strings.Builder
+		b.WriteString("(* GENERATED by go2coq from the working tree - do not edit, never committed *)\nFrom Coq Require Import String List.\nImport ListNotations.\nLocal Open Scope string_scope.\n\n")
+		b.WriteString("Definition event_fields : list string := " + coqStrList(structFields(event, "Event")) + ".\n")
+		u, g := assignedFields(event, "", "newEvent", "e")
+		b.WriteString("Definition newEvent_resets : list string := " + coqStrList(u) + ".\n")
+		b.WriteString("Definition newEvent_guarded : list string := " + coqStrList(g) + ".\n")
+		b.WriteString("Definition logger_fields : list string := " + coqStrList(structFields(logf, "Logger")) + ".\n")
+		u, g = assignedFields(logf, "Logger", "Output", "l2")
+		b.WriteString("Definition output_copies : list string := " + coqStrList(u) + ".\n")
+		b.WriteString("Definition output_guarded : list string := " + coqStrList(g) + ".\n")
+		u, _ = assignedFields(logf, "*Logger", "newEvent", "e")
+		b.WriteString("Definition logger_newEvent_sets : list string := " + coqStrList(u) + ".\n")
+		os.WriteFile(filepath.Join(*out, "Structs.v"), []byte(b.String()), 0o644)
 	}
 	nk, ns, nn := 0, 0, 0
 	for _, m := range em {
